@@ -225,25 +225,30 @@ CHECKS = {
         ("C20", "PARTIAL: inherits C03's open finding D3i; faults on every scheduler call incl. hook re-arming."),
     )},
     "C10": {
-        "family": "lin", "level": "proof", "modules": ["Gk.Props.C10"], "components": ["lin"],
+        "family": "lin", "level": "proof", "modules": ["Gk.Props.C10"], "components": ["lin", "srcfacts-lock"],
         "runs": lambda tier: {
             "quick": [{"args": ["lin", "-impl", "mem", "-n", "3000", "-g", "4", "-k", "2"]},
                       {"args": ["lin", "-impl", "mem", "-n", "1500", "-g", "3", "-k", "3"], "seed_off": 1},
                       {"args": ["lin", "-impl", "entfile", "-n", "150", "-g", "3", "-k", "2"]},
-                      {"args": ["lin", "-impl", "mem", "-n", "600", "-g", "4", "-k", "2"], "race": True, "seed_off": 2}],
+                      {"args": ["lin", "-impl", "mem", "-n", "600", "-g", "4", "-k", "2"], "race": True, "seed_off": 2},
+                      {"args": ["srcfacts", "-facts", "lock"]}],
             "thorough": [{"args": ["lin", "-impl", "mem", "-n", "60000", "-g", "4", "-k", "2", "-procs", str(p)], "seed_off": p}
                          for p in (2, 4, 16)] +
                         [{"args": ["lin", "-impl", "mem", "-n", "20000", "-g", "2", "-k", "4"]},
                          {"args": ["lin", "-impl", "entfile", "-n", "3000", "-g", "4", "-k", "2"]},
                          {"args": ["lin", "-impl", "mem", "-n", "6000", "-g", "4", "-k", "2"], "race": True, "seed_off": 9},
-                         {"args": ["lin", "-impl", "entfile", "-n", "300", "-g", "3", "-k", "2"], "race": True, "seed_off": 10}],
+                         {"args": ["lin", "-impl", "entfile", "-n", "300", "-g", "3", "-k", "2"], "race": True, "seed_off": 10},
+                         {"args": ["srcfacts", "-facts", "lock"]}],
             "widen": [{"args": ["lin", "-impl", "mem", "-n", "30000", "-g", "4", "-k", "2"]}],
         }[tier],
         "rule": "real goroutines behind a barrier issue add / cancel / dispatch / update / done / get / next / find on "
                 "two shared tasks (all sort keys tied, fixed clock) of the in-memory and the file-backed ent/SQLite "
                 "repository; calls and returns are stamped with one atomic counter; a sequential suffix lists and "
                 "drains the repository; the recorded history is decided by the Lean checker Gk.Lin.linearizable over "
-                "Spec.Repo; one run uses a race-detector build (a reported data race is a violation by itself)",
+                "Spec.Repo; one run uses a race-detector build (a reported data race is a violation by itself); "
+                "`gkh srcfacts -facts lock` re-extracts from the current sources (go/ast) that every method of "
+                "InMemoryRepository, CronStore, volatileTaskRepo and MutationHookTimer takes the exclusive mutex with a "
+                "deferred unlock before its first access to a protected field (the hypothesis of C10_atomic_sections)",
         "trusted_base": COMMON_TB + ["that the Go code holds r.mu where the model assumes one atomic step, and that SQLite "
                                      "executes each conditional UPDATE atomically, is sampled by these runs, not proved"],
         "assumptions": ["histories are observations of real concurrent runs (not shrunk, a replay re-checks the recorded "
@@ -252,8 +257,9 @@ CHECKS = {
                  "section argument; the mapping of Go critical sections / SQL statements to atomic steps is sampled.",
     },
     "C19": {
-        "family": "repo", "level": "proof", "modules": ["Gk.Props.C19"], "components": ["repo", "cron", "heap", "snapshot", "memspec", "next", "find"],
+        "family": "repo", "level": "proof", "modules": ["Gk.Props.C19"], "components": ["repo", "cron", "heap", "snapshot", "memspec", "next", "find", "srcfacts-clone"],
         "runs": lambda tier: (lambda n: [
+            {"args": ["srcfacts", "-facts", "clone"]},
             {"args": ["repo", "-impl", "mem", "-scribble", "-n", str(n), "-len", "40"]},
             {"args": ["repo", "-impl", "mem", "-profile", "snapshot", "-scribble", "-n", str(n), "-len", "40"], "seed_off": 1},
             {"args": ["repo", "-impl", "ent", "-scribble", "-workers", "1", "-avoid", "like-case,json-path-key",
@@ -265,7 +271,9 @@ CHECKS = {
                 "delete a key), then re-reads the store: dump / heap / Schedule() must be unchanged, must still equal "
                 "the value-semantic model, and the scribble marker must never come back (crossings: the 8 Repository "
                 "methods on in-memory and ent, Save / Load, CronStore Pop / Peek / Schedule / Entry.Param, "
-                "volatileTaskRepo GetNext / GetById)",
+                "volatileTaskRepo GetNext / GetById); `gkh srcfacts -facts clone` re-extracts from the current sources "
+                "that no store method returns or appends a dereferenced stored task (cron Pop excepted: it hands out "
+                "the task it removed)",
         "trusted_base": COMMON_TB + ["which crossings clone is hand-transcribed into Gk/Alias.lean's flags; only the "
                                      "scribbling runs validate it"],
         "assumptions": REPO_ASSUME,
